@@ -3,16 +3,6 @@ From Coq Require Import String Lia.
 From Morph Require Import Base.UStr Gen.Tables Model.Data Model.Config Proofs.DataP.
 Local Open Scope N_scope.
 
-Lemma rget_rset_same k v r : rget k (rset k v r) = Some v.
-Proof. unfold rget. induction r as [|[k' v'] r IH]; simpl; [now rewrite ueqb_refl|]. destruct (ueqb k k') eqn:E; simpl; [now rewrite ueqb_refl|now rewrite E]. Qed.
-Lemma rget_rset_other k k' v r : ueqb k' k = false -> rget k' (rset k v r) = rget k' r.
-Proof.
-  intro H. unfold rget. induction r as [|[k2 v2] r IH]; simpl; [now rewrite H|].
-  destruct (ueqb k k2) eqn:E; simpl.
-  - apply ueqb_eq in E; subst. now rewrite H.
-  - destruct (ueqb k' k2); auto.
-Qed.
-
 (* one filling step never touches another option, and sets its own option exactly when it was not provided *)
 Lemma fill_other ev m od k : ueqb k (fst od) = false -> cget (fill ev m od) k = cget m k.
 Proof. intro H. unfold fill. destruct (provided m (fst od) ev); auto. unfold cget, cset. now apply rget_rset_other. Qed.
